@@ -188,6 +188,23 @@ def make_font(rng, version):
         glyphs["C"] = gen_paint(rng, rng.randint(1, 3), npal, None)
         glyphs["B"] = gen_paint(rng, rng.randint(1, 5), npal, "C")
         glyphs["A"] = gen_paint(rng, rng.randint(2, 6), npal, rng.choice(["B", "C"]))
+        if rng.random() < 0.35:
+            # a RADIAL gradient rotated / skewed relative to its shape (a transform paint between the PaintGlyph and the gradient whose linear part
+            # keeps |a| = |d|): the circles must still go through the similarity/remainder split
+            x1, y1, r1 = rng.randint(250, 550), rng.randint(150, 450), rng.randint(200, 400)
+            rad = {"Format": 6, "ColorLine": gen_colorline(rng, npal), "x0": x1 + rng.choice([-60, 40, 80]), "y0": y1 + rng.choice([-50, 30]), "r0": rng.choice([0, 20]),
+                   "x1": x1, "y1": y1, "r1": r1}
+            kind = rng.choice(["rot", "rotc", "skew", "matrix"])
+            if kind == "rot":
+                wrap = {"Format": 24, "Paint": rad, "angle": rng.choice([15, 30, -45, 60])}
+            elif kind == "rotc":
+                wrap = {"Format": 26, "Paint": rad, "angle": rng.choice([20, -30, 45]), "centerX": rng.randint(100, 500), "centerY": rng.randint(100, 500)}
+            elif kind == "skew":
+                wrap = {"Format": 28, "Paint": rad, "xSkewAngle": rng.choice([15, -20, 30]), "ySkewAngle": 0}
+            else:
+                wrap = {"Format": 12, "Paint": rad, "Transform": (0.75, 0.25, -0.25, 0.75, rng.randint(-50, 50), rng.randint(-50, 50))}
+            forced = {"Format": 10, "Glyph": rng.choice(["sq", "big"]), "Paint": wrap}
+            glyphs["A"] = {"Format": 1, "Layers": [forced, glyphs["A"]]} if rng.random() < 0.5 else forced
         if rng.random() < 0.4:
             # a PaintColrGlyph UNDER a transform (directly, through layers, through the group-opacity composite): the accumulated transform goes on
             # the wrapping <g> once and must not be applied again to the referenced glyph's elements
